@@ -202,6 +202,31 @@ def site_guarded(sem, vis, bb, fact_pred):
                     pass_edges.add((blk.idx, succ))
         removed = set(level.removed) | pass_edges
         reach = be.cfg.reach([0], removed=removed)
+        # a switch on a locally built tag (`let kind = if cond { Tag::A } else { Tag::B }; match kind { Tag::A => .. }`): the edge for
+        # variant V can only be taken when V's construction site was executed, so it inherits the guard of that site
+        grew = True
+        while grew and site in reach:
+            grew = False
+            for blk in level.body.blocks:
+                if blk.cleanup or blk.term.kind != "switch" or blk.idx not in be.cfg.live:
+                    continue
+                for succ, fl in sem.edge_facts(be, blk.idx).items():
+                    if (blk.idx, succ) in removed:
+                        continue
+                    for f in fl:
+                        if f[0] != "variant":
+                            continue
+                        x = sem.w.ident(f[1], expand_ws=False)
+                        alts = x.args if x.op == "phi" else (x,)
+                        if not all(a.op == "adt" and not a.args and a.site is not None and a.site[0] == level.body.path for a in alts):
+                            continue
+                        mine = [a for a in alts if a.info[1] == f[2]]
+                        if mine and all(a.site[1] not in reach for a in mine):
+                            pass_edges.add((blk.idx, succ))
+                            removed.add((blk.idx, succ))
+                            grew = True
+            if grew:
+                reach = be.cfg.reach([0], removed=removed)
         if site not in reach:
             return True, "guarded in %s (%d pass edge(s))" % (level.body.path, len(pass_edges))
         # a closure fed by an iterator pipeline only ever sees items that passed the pipeline's filters: the facts that hold
